@@ -18,7 +18,7 @@ PROPERTY = "C06"
 
 META = {
     "bounds": {
-        "quick": "all expression trees with <= 2 operators (154 shapes) x 4 renderings x 11 contexts (incl. inner scopes assigning temporaries of the variable's name, the same text evaluated twice in one scope, and the same expression in a code block spliced twice, with a variable re-assigned in between), leaves a..d in [0,2^24) (trees without `*`), [0,2^16) (<= 2 operators), [0,2^12) (larger trees with `*`), shift amounts s in [0,8); literals: decimal 1-5 digits, 0x + 1-4 hex digits (both cases), 0b + 1-6 bits, all symbolic",
+        "quick": "all expression trees with <= 2 operators (154 shapes) x 4 renderings x 12 contexts (incl. a `=` definition and a data entry of the same text around a re-assignment, inner scopes assigning temporaries of the variable's name, the same text evaluated twice in one scope, and the same expression in a code block spliced twice, with a variable re-assigned in between), leaves a..d in [0,2^24) (trees without `*`), [0,2^16) (<= 2 operators), [0,2^12) (larger trees with `*`), shift amounts s in [0,8); literals: decimal 1-5 digits, 0x + 1-4 hex digits (both cases), 0b + 1-6 bits, all symbolic",
         "thorough": "trees with <= 3 operators (all) plus a VERIF_SEED-drawn sample of 4- and 5-operator trees; same leaves; literals up to 6/5/8 digits",
     },
     "outside": [
@@ -36,7 +36,7 @@ OPTS = {"quick": {"deadline_s": 300}, "thorough": {"deadline_s": 900}}
 STYLES = ["min", "sp", "full", "wide"]
 # contexts that use the directive lexer accept only some operators
 DIRECTIVE_OPS = {"+", "-", "*", "<<", ">>", "&"}
-CONTEXTS = ["str", "dl", "symbol", "assign", "macro", "if", "operand", "direct", "reeval", "splice2", "inner-assign"]
+CONTEXTS = ["str", "dl", "symbol", "assign", "macro", "if", "operand", "direct", "reeval", "splice2", "inner-assign", "symbol-late"]
 
 
 def all_trees(nmax):
@@ -166,6 +166,10 @@ def run(spec, cx):
             # nested blocks / a macro / a loop assign temporaries that have the variable's name: the outer variable keeps its value
             src = (f"*=0x8000\n.macro tmpm(q) {{\nx := q + 1\n.db x\n}}\nx := {text}\n{{\nx := 1\n{{\nx := 2\n}}\n}}\ntmpm(3)\n"
                    f".for k := 0, 2 {{\nx := k\n}}\n.dl x\n.dw x\n")
+        elif ctx == "symbol-late":
+            # `name = text` and a data entry with the same text, a variable re-assigned in between and afterwards: a symbol
+            # definition and a data entry see the same (final) values
+            src = f"*=0x8000\nx = {text}\na := a + 1\n.dl x\n.dw {text}\n"
         elif ctx == "reeval":
             # the same text evaluated twice in one scope, a variable it reads re-assigned in between
             src = f"*=0x8000\nq := {text}\na := a + 1\nr := {text}\n.dl q\n.dw r\n"
@@ -185,7 +189,7 @@ def run(spec, cx):
 
             try:
                 V = eval_expression_str(text, new_program(syms=syms).resolver)
-                if ctx in ("reeval", "splice2"):
+                if ctx in ("reeval", "splice2", "symbol-late"):
                     syms2 = dict(syms)
                     syms2["a"] = syms["a"] + 1
                     V = (V, eval_expression_str(text, new_program(syms=syms2).resolver))
@@ -266,7 +270,7 @@ def check(spec, cx, out):
         if len(blocks) != 1 or V is None:
             return [("value", z3.Not(defined))]
         V2 = None
-        if ctx in ("reeval", "splice2"):
+        if ctx in ("reeval", "splice2", "symbol-late"):
             V, V2 = V
         res = [("value", z3.Implies(defined, bv(V) == val))]
         bs = blist(blocks[0][1])
@@ -276,7 +280,9 @@ def check(spec, cx, out):
         if ctx == "direct" and text_starts_with_group_only(t):
             # `ldx.w (expr)` alone is the indirect addressing shape, not an expression: no claim here
             return res
-        if ctx == "inner-assign":
+        if ctx == "symbol-late":
+            exp = blist(_pack(cx, "<HB", V2 & 0xFFFF, (V2 >> 16) & 0xFF)) + blist(_pack(cx, "<H", V2 & 0xFFFF))
+        elif ctx == "inner-assign":
             exp = [B(4)] + blist(_pack(cx, "<HB", V & 0xFFFF, (V >> 16) & 0xFF)) + blist(_pack(cx, "<H", V & 0xFFFF))
         elif ctx == "reeval":
             exp = blist(_pack(cx, "<HB", V & 0xFFFF, (V >> 16) & 0xFF)) + blist(_pack(cx, "<H", V2 & 0xFFFF))
